@@ -395,10 +395,34 @@ func K12() *Entry {
 	return &Entry{Name: "k12", File: f, Cfg: BaseConfig("Bare"), Tags: []string{"no-proto-package", "long-comment"}}
 }
 
+// K13: per-field Terraform type overrides (schema_types) on singular string / int64 / bool
+// fields: at the root, in a nested message keyed by path and by Message.Field, in a oneof.
+func K13() *Entry {
+	part := M("AltPart", F("PartLabel"), F("PartCount", Sc(ir.Int64)), F("PartPlain"))
+	m := WithOneofs(M("AltHost", F("Label"), F("Count", Sc(ir.Int64)), F("Flag", Sc(ir.Bool)), F("Plain"), F("Signed", Sc(ir.Sint64)),
+		F("Part", MsgT("AltPart")), F("Parts", MsgT("AltPart"), Rep()), F("Other", MsgT("AltPart"), NonNull()),
+		F("PickText", In(0)), F("PickCount", Sc(ir.Int64), In(0))), "Pick")
+	f := file("k13", m, part)
+	AutoComments(f)
+	c := BaseConfig("AltHost")
+	c.SchemaTypes = map[string]ir.SchemaType{
+		"AltHost.Label":          AltType("string"),
+		"AltHost.Count":          AltType("int64"),
+		"AltHost.Flag":           AltType("bool"),
+		"AltHost.Signed":         AltType("int64"),
+		"AltHost.Part.PartLabel": AltType("string"), // this occurrence only
+		"AltPart.PartCount":      AltType("int64"),  // every occurrence
+		"AltHost.PickText":       AltType("string"),
+	}
+	c.ComputedFields = []string{"AltHost.Label"}
+	c.RequiredFields = []string{"AltHost.Count"}
+	return &Entry{Name: "k13", File: f, Cfg: c, Tags: []string{"schema_types"}}
+}
+
 // Curated returns the curated corpus. known=true adds the isolated shapes that
 // are known not to compile on the pinned tree (D1, D2).
 func Curated() []*Entry {
-	return []*Entry{K1(), K2(), K3(), K4(), K5(), K6(0), K6(1), K6(2), K7(), K7X(), K8(), K9(), K10(false), K10(true), K12()}
+	return []*Entry{K1(), K2(), K3(), K4(), K5(), K6(0), K6(1), K6(2), K7(), K7X(), K8(), K9(), K10(false), K10(true), K12(), K13()}
 }
 
 // Exotic returns the isolated shapes (K11).
